@@ -237,10 +237,11 @@ same region and let the comparison form `cov / sqrt(var f · var g)` (square roo
 def corrParts (f g : Stairs Rat) (lo hi : Option Rat) (lag : Rat) (clipPre : Bool) :
     Except Err (Val × Val × Val) := do
   let (f1, g1, lo', hi') ← covPrep f g lo hi lag clipPre
+  -- `self.cov(other, where)` is called first, on the masked operands with the adjusted window and lag 0 (so that
+  -- operands closed on different sides raise even when a standard deviation is zero)
+  let cv ← cov f1 g1 lo' hi' 0 true
   let b ← clipW f1 lo' hi'
   let c ← clipW g1 lo' hi'
-  -- `self.cov(other, where)` is called on the masked operands with the adjusted window and lag 0
-  let cv ← cov f1 g1 lo' hi' 0 true
   pure (cv, var b, var c)
 
 end Stairs
